@@ -73,3 +73,22 @@ Theorem torch_energy_eq_np :
   (0 < Lr)%R -> torch_energy xs Lr floor use_power use_log = np_energy xs Lr floor use_power use_log.
 Proof. exact torch_energy_eq_np_l. Qed.
 Print Assumptions torch_energy_eq_np.
+
+(* ---- tie to the source: the torch port's energy block, per-segment doubling, final log floor and
+   default DFT size, symbolically executed from torch.py by gen/stft_scalar.py (coq/gen/StftR.v) ---- *)
+From Verif Require Import Stft.ScalarTie gen.StftR.
+Theorem torch_energy_model_is_source :
+  forall (xs : list R) (Lr floor : R) (use_power use_log : bool),
+  g_torch_log (g_torch_energy (sumsq xs) Lr use_power) floor use_log = torch_energy xs Lr floor use_power use_log.
+Proof. exact torch_energy_tie_l. Qed.
+Print Assumptions torch_energy_model_is_source.
+(* torch doubles every segment of a real bank's walk and log-floors the stacked result; numpy doubles
+   and log-floors the accumulated sum: the same value for every list of segment sums *)
+Theorem torch_post_eq_numpy :
+  forall (vs : list R) (floor : R) (is_real use_log : bool),
+  g_torch_log (rsum (map (fun v => g_torch_seg v is_real) vs)) floor use_log = g_frame_post (rsum vs) floor is_real use_log.
+Proof. exact torch_post_eq_numpy_l. Qed.
+Print Assumptions torch_post_eq_numpy.
+Theorem torch_dft_size_eq_numpy : forall L : Z, g_torch_dft L = g_init_dft L true.
+Proof. exact torch_dft_eq_numpy_l. Qed.
+Print Assumptions torch_dft_size_eq_numpy.
